@@ -110,6 +110,12 @@ def random_network(rng, max_nodes=8, max_branches=14, cplx=None, kinds=KINDS, n_
     if cplx is None:
         cplx = rng.random() < 0.4
     lo = rng.randint(-2, 2)
+    src_scale = 1.0
+    r = rng.random()
+    if r < 0.08:                       # extreme impedance levels (GOhm / nano-ohm ranges): absolute-tolerance slips show up here
+        lo = rng.choice([-9, -8, -7, 6, 7, 8])
+    elif r < 0.16:                     # tiny or huge excitations (nA, nV, MV): the solution must simply scale
+        src_scale = rng.choice([1e-9, 1e-12, 1e-7, 1e6])
     dec = (lo, lo + rng.randint(0, 3))
     if hostile_labels:
         nl = pick_labels(rng, NODE_POOL, n_nodes)
@@ -126,7 +132,12 @@ def random_network(rng, max_nodes=8, max_branches=14, cplx=None, kinds=KINDS, n_
     branches = []
     for k, (i, j) in enumerate(topo):
         kind = rng.choice(src_kinds) if k in src_pos else rng.choice(pas_kinds)
-        branches.append(make_branch(rng, kind, ids[k], nl[i], nl[j], dec, cplx, exact))
+        b = make_branch(rng, kind, ids[k], nl[i], nl[j], dec, cplx, exact)
+        if src_scale != 1.0:
+            for key in ('V', 'I'):
+                if key in b and b['ctor'] in ('voltage_source', 'current_source'):
+                    b[key] = [v * src_scale for v in b[key]] if isinstance(b[key], list) else b[key] * src_scale
+        branches.append(b)
     return {'ref': rng.choice(nl), 'branches': branches}
 
 
